@@ -44,6 +44,13 @@ Fixpoint cnode (n : tnode) : stmt :=
        | None, Some e => Some (1%nat, compile e, None)
        | None, None => None
        end)
+  | NComponent n cid args body =>
+    SComponent 1 cid n
+      (match args with
+       | Some ps => Some (EObj 1 (map (fun p : bytes * sexpr => (fst p, compile (snd p))) ps))
+       | None => None
+       end) [] (Some (map cnode body))
+  | NSlot n body => SSlot 1 n (match body with Some b => Some (map cnode b) | None => None end)
   end.
 
 (* what the printer can spell and the model treats like the specification: literals in range;
@@ -70,6 +77,8 @@ Fixpoint node_ok (n : tnode) : Prop :=
      | None => True
      end) /\ all body /\ oall els
   | NReserve _ _ blk arg => oall blk /\ match arg with Some e => lits_ok e | None => True end
+  | NComponent _ _ args body => match args with Some ps => all_ok_pairs ps | None => True end /\ all body
+  | NSlot _ body => oall body
   end.
 
 Definition nodes_ok (l : list tnode) : Prop :=
@@ -182,7 +191,18 @@ Definition PF (f : nat) : Prop :=
     Rl (for_loop cx0 fm ln (for_init init) (for_cond cond) (for_post post) (map cnode body) sc out) out
        (for_passes T f cond post body sc).
 
-Definition PALL (f : nat) : Prop := PN f /\ PNS f /\ PB f /\ PE f /\ PF f.
+(* the program loop (evalProgram: a component file, a layout, a whole template) *)
+Definition PP (f : nat) : Prop :=
+  forall sc ns, env_clean sc = true -> nodes_ok ns ->
+  exists K, forall fm, (K <= fm)%nat -> forall out0,
+    match run_nodes T f sc ns with
+    | TOk out SigNormal sc' => eval_program cx0 fm sc (map cnode ns) out0 = Ok (out0 ++ out, sc') /\ env_clean sc' = true
+    | TOk _ _ _ => True      (* a @break / @continue outside any loop: nothing is claimed *)
+    | TFail => exists ln msg, eval_program cx0 fm sc (map cnode ns) out0 = Fail ln msg
+    | TNoFuel | TUnprintable => True
+    end.
+
+Definition PALL (f : nat) : Prop := PN f /\ PNS f /\ PB f /\ PE f /\ PF f /\ PP f.
 
 Lemma P0 : PALL 0.
 Proof. repeat split; intro; intros; exists 0%nat; intros; exact I. Qed.
@@ -264,6 +284,34 @@ Proof.
   - destruct H as (ln & msg & ->). do 2 eexists. reflexivity.
 Qed.
 
+
+Lemma PP_step f : PN f -> PP f -> PP (S f).
+Proof.
+  intros HN HP sc ns Hc Hok. destruct ns as [|n ns].
+  - rewrite run_nodes_nil. exists 1%nat. intros fm Hfm out0. destruct fm; [lia|]. cbn [map eval_program].
+    rewrite app_nil_r. split; [reflexivity|exact Hc].
+  - destruct Hok as [Hn Hns]. rewrite run_nodes_cons.
+    destruct (HN sc n Hc Hn) as [K1 H1].
+    destruct (run_node T f sc n) as [o sig sc1| | |] eqn:Er.
+    + assert (Hc1 : env_clean sc1 = true).
+      { destruct (H1 K1 (le_n _)) as (v & _ & _ & _ & _ & Hc1). exact Hc1. }
+      destruct sig.
+      * destruct (HP sc1 ns Hc1 Hns) as [K2 H2].
+        exists (S (Nat.max K1 K2)). intros fm Hfm out0. destruct fm as [|fm]; [lia|]. cbn [map eval_program].
+        destruct (H1 fm ltac:(lia)) as (v & Hev & Hstr & _). rewrite Hev. cbv beta iota. cbn [fst snd].
+        unfold str_of. rewrite Hstr. cbv beta iota.
+        specialize (H2 fm ltac:(lia) (out0 ++ o)).
+        destruct (run_nodes T f sc1 ns) as [o2 s2 sc2| | |]; try exact H2.
+        destruct s2; try exact I.
+        destruct H2 as [-> Hc2]. rewrite app_assoc. split; [reflexivity|exact Hc2].
+      * exists 0%nat. intros fm _ out0. exact I.
+      * exists 0%nat. intros fm _ out0. exact I.
+    + exists (S K1). intros fm Hfm out0. destruct fm as [|fm]; [lia|]. cbn [map eval_program].
+      destruct (H1 fm ltac:(lia)) as (ln & msg & ->). do 2 eexists. reflexivity.
+    + exists 0%nat. intros; exact I.
+    + exists 0%nat. intros; exact I.
+Qed.
+
 (* ---------- one-step unfoldings of run_node, per construct *)
 Lemma rn_text f sc s : run_node T (S f) sc (NText s) = TOk s SigNormal sc.
 Proof. reflexivity. Qed.
@@ -343,6 +391,29 @@ Proof. reflexivity. Qed.
 Lemma rn_reserve_empty f sc n rid : run_node T (S f) sc (NReserve n rid None None) = TOk [] SigNormal sc.
 Proof. reflexivity. Qed.
 
+Lemma rn_component f sc n cid args body :
+  run_node T (S f) sc (NComponent n cid args body) =
+  match (match args with
+         | Some ps => bind_spec T sc (asort ps) ([] :: sc)
+         | None => Some (Some ([] :: sc))
+         end) with
+  | None => TUnprintable
+  | Some None => TFail
+  | Some (Some sc1) =>
+    match run_nodes T f sc1 body with
+    | TOk o SigNormal sc2 => TOk o SigNormal (tl sc2)
+    | TOk _ _ _ => TUnprintable
+    | r => r
+    end
+  end.
+Proof. reflexivity. Qed.
+Lemma rn_slot_body f sc n b :
+  run_node T (S f) sc (NSlot n (Some b)) =
+  match run_nodes T f sc b with TOk o _ sc1 => TOk o SigNormal sc1 | r => r end.
+Proof. reflexivity. Qed.
+Lemma rn_slot_empty f sc n : run_node T (S f) sc (NSlot n None) = TOk [] SigNormal sc.
+Proof. reflexivity. Qed.
+
 Lemma rn_break f sc : run_node T (S f) sc NBreak = TOk [] SigBreak sc.
 Proof. reflexivity. Qed.
 Lemma rn_continue f sc : run_node T (S f) sc NContinue = TOk [] SigContinue sc.
@@ -409,6 +480,36 @@ Lemma rs_ok v out sig sc' (o : outcome (value * env)) :
   o = Ok (v, sc') -> value_string v = Some out -> has_break v = sig_b sig -> has_continue v = sig_c sig ->
   env_clean sc' = true -> Rs o (TOk out sig sc').
 Proof. intros. exists v. repeat split; assumption. Qed.
+
+(* ---------- component arguments *)
+Definition cpair (p : bytes * sexpr) : bytes * expr := (fst p, compile (snd p)).
+
+Lemma bind_case : forall ps sc ne, env_clean sc = true -> env_clean ne = true -> all_ok_pairs ps ->
+  exists K, forall fm, (K <= fm)%nat -> forall ln,
+    match bind_spec T sc ps ne with
+    | Some (Some ne') => bind_args cx0 fm ln sc (map cpair ps) ne = Ok ne' /\ env_clean ne' = true
+    | Some None => exists l m, bind_args cx0 fm ln sc (map cpair ps) ne = Fail l m
+    | None => True
+    end.
+Proof.
+  induction ps as [|[k e] ps IH]; intros sc ne Hc Hn Hok.
+  - exists 0%nat. intros fm _ ln. cbn [bind_spec map bind_args]. split; [reflexivity|exact Hn].
+  - destruct Hok as [He Hps]. cbn [snd] in He. cbn [bind_spec].
+    destruct (ev_case sc e He Hc) as [K1 H1].
+    destruct (ev T sc e) as [v| |].
+    + pose proof (assign_is_env_set ne k v) as Ha.
+      destruct (assign ne k v) as [ne'|].
+      * assert (Hn' : env_clean ne' = true).
+        { destruct (H1 K1 (le_n _)) as [_ Hv]. eapply env_set_clean; eassumption. }
+        destruct (IH sc ne' Hc Hn' Hps) as [K2 H2].
+        exists (Nat.max K1 K2). intros fm Hfm ln. cbn [map bind_args cpair fst snd].
+        destruct (H1 fm ltac:(lia)) as [-> _]. cbv beta iota. rewrite Ha. apply H2. lia.
+      * destruct Ha as [msg Ha]. exists K1. intros fm Hfm ln. cbn [map bind_args cpair fst snd].
+        destruct (H1 fm Hfm) as [-> _]. cbv beta iota. rewrite Ha. do 2 eexists. reflexivity.
+    + exists K1. intros fm Hfm ln. cbn [map bind_args cpair fst snd].
+      destruct (H1 fm Hfm) as (l & m & ->). do 2 eexists. reflexivity.
+    + exists 0%nat. intros; exact I.
+Qed.
 
 (* the @elseif chain *)
 Lemma alts_step f sc els elifs :
@@ -828,9 +929,9 @@ Lemma eval_for_unfold fm sc init cond post body els :
    end).
 Proof. reflexivity. Qed.
 
-Lemma PN_step f : PNS f -> PB f -> PE f -> PF f -> PN (S f).
+Lemma PN_step f : PNS f -> PB f -> PE f -> PF f -> PP f -> PN (S f).
 Proof.
-  intros HNS HB HE HF sc n Hc Hok. destruct n.
+  intros HNS HB HE HF HP sc n Hc Hok. destruct n.
   - (* text *)
     rewrite rn_text. exists 1%nat. intros fm Hfm. destruct fm; [lia|]. cbn [cnode eval_stmt].
     apply (rs_ok (VHtml s)); try reflexivity. exact Hc.
@@ -994,17 +1095,73 @@ Proof.
       * (* nothing inserted *)
         exists 1%nat. intros fm Hfm. destruct fm; [lia|]. rewrite rn_reserve_empty. cbn [cnode eval_stmt].
         apply (rs_ok VNil); try reflexivity. exact Hc.
+  - (* a component use *)
+    rewrite rn_component. cbn [node_ok] in Hok. destruct Hok as [Hargs Hbody].
+    pose proof (push_clean sc Hc) as Hc0.
+    assert (Hb : exists K, forall fm, (K <= fm)%nat -> forall ln,
+              match (match args with Some ps => bind_spec T sc (asort ps) ([] :: sc) | None => Some (Some ([] :: sc)) end) with
+              | Some (Some ne') =>
+                (match (match args with
+                        | Some ps => Some (EObj 1 (map (fun p : bytes * sexpr => (fst p, compile (snd p))) ps))
+                        | None => None end) with
+                 | Some (EObj _ pairs) => bind_args cx0 fm ln sc (asort pairs) ([] :: sc)
+                 | Some _ => Panic
+                 | None => Ok ([] :: sc)
+                 end) = Ok ne' /\ env_clean ne' = true
+              | Some None =>
+                exists l m, (match (match args with
+                        | Some ps => Some (EObj 1 (map (fun p : bytes * sexpr => (fst p, compile (snd p))) ps))
+                        | None => None end) with
+                 | Some (EObj _ pairs) => bind_args cx0 fm ln sc (asort pairs) ([] :: sc)
+                 | Some _ => Panic
+                 | None => Ok ([] :: sc)
+                 end) = Fail l m
+              | None => True
+              end).
+    { destruct args as [ps|].
+      - destruct (bind_case (asort ps) sc ([] :: sc) Hc Hc0 (all_ok_pairs_asort ps Hargs)) as [K H].
+        exists K. intros fm Hfm ln. specialize (H fm Hfm ln).
+        rewrite (asort_map_values compile ps). exact H.
+      - exists 0%nat. intros fm _ ln. split; [reflexivity|exact Hc0]. }
+    destruct Hb as [K0 H0].
+    destruct (match args with Some ps => bind_spec T sc (asort ps) ([] :: sc) | None => Some (Some ([] :: sc)) end)
+      as [[sc1|]|] eqn:Eb.
+    + assert (Hc1 : env_clean sc1 = true) by (destruct (H0 K0 (le_n _) 1%nat) as [_ X]; exact X).
+      destruct (HP sc1 body Hc1 Hbody) as [K1 H1].
+      exists (S (Nat.max K0 K1)). intros fm Hfm. destruct fm as [|fm]; [lia|].
+      cbn [cnode eval_stmt]. destruct (H0 fm ltac:(lia) 1%nat) as [-> _]. cbv beta iota.
+      specialize (H1 fm ltac:(lia) []).
+      destruct (run_nodes T f sc1 body) as [o sg sc2| | |]; try exact I.
+      * destruct sg; try exact I. destruct H1 as [-> Hc2]. cbv beta iota. cbn [fst snd app].
+        apply (rs_ok (VComponent (VHtml o))); try reflexivity. apply tl_clean, Hc2.
+      * destruct H1 as (l & m & ->). do 2 eexists. reflexivity.
+    + exists (S K0). intros fm Hfm. destruct fm as [|fm]; [lia|]. cbn [cnode eval_stmt].
+      destruct (H0 fm ltac:(lia) 1%nat) as (l & m & ->). do 2 eexists. reflexivity.
+    + exists 0%nat. intros; exact I.
+  - (* a slot placeholder *)
+    cbn [node_ok] in Hok. destruct body as [b|].
+    + rewrite rn_slot_body. destruct (HNS sc b Hc Hok) as [K H]. exists (S K). intros fm Hfm. destruct fm as [|fm]; [lia|].
+      specialize (H fm ltac:(lia) []). cbn [cnode eval_stmt].
+      destruct (run_nodes T f sc b) as [o s sc1| | |]; unfold Rb in H; unfold Rs; try exact I.
+      * destruct H as (vs & ss & He & Hss & Hcat & _ & _ & Hcl). rewrite He. cbv beta iota. cbn [fst snd rev app].
+        destruct (block_value vs ss Hss) as (Hv & _ & _).
+        apply (rs_ok (VSlot (VBlock vs))); try reflexivity; [|exact Hcl].
+        cbn [value_string]. cbn [value_string] in Hv. rewrite Hv, Hcat. reflexivity.
+      * destruct H as (ln & msg & ->). do 2 eexists. reflexivity.
+    + rewrite rn_slot_empty. exists 1%nat. intros fm Hfm. destruct fm; [lia|]. cbn [cnode eval_stmt].
+      apply (rs_ok (VSlot VNil)); try reflexivity. exact Hc.
 Qed.
 
 (* ---------- all together *)
 Theorem refinement f : PALL f.
 Proof.
-  induction f as [|f (HN & HNS & HB & HE & HF)]; [exact P0|].
+  induction f as [|f (HN & HNS & HB & HE & HF & HP)]; [exact P0|].
   pose proof (PNS_step f HN HNS) as HNS'.
   pose proof (PB_step f HNS) as HB'.
   pose proof (PE_step f HNS HE) as HE'.
   pose proof (PF_step f HNS HF) as HF'.
-  pose proof (PN_step f HNS HB HE HF) as HN'.
+  pose proof (PP_step f HN HP) as HP'.
+  pose proof (PN_step f HNS HB HE HF HP) as HN'.
   repeat split; assumption.
 Qed.
 
